@@ -351,6 +351,15 @@ def find_check_cache(context):
     except FileNotFoundError:
         return
 
+    # If the cache is newer than the build file, a previous regeneration saved
+    # the cache but failed before it finished writing the build file, so the
+    # cache doesn't describe the build file we have; regenerate for real.
+    cachefile = Path(FindCacheFile.cachefile)
+    if ( _path.getmtime_ns(cachefile, context.env.base_dirs, strict=False) >
+         _path.getmtime_ns(regen_files.outputs[0], context.env.base_dirs,
+                           strict=False) ):
+        return
+
     # Check if any of the explicit inputs are newer than any of the explicit
     # outputs. If so, we definitely want to regenerate the build files.
     if ( max(_path.getmtime_ns(i, context.env.base_dirs, strict=False)
